@@ -1032,7 +1032,11 @@ class WSGIApp:
             value = bytes_io.getvalue()
 
         # Blob and File both have the content_type attribute
-        return Response(value, content_type=submodel_element.content_type)  # type: ignore[attr-defined]
+        try:
+            return Response(value, content_type=submodel_element.content_type)  # type: ignore[attr-defined]
+        except ValueError as e:
+            # ContentType allows line breaks, a header value does not
+            raise BadRequest(f"{submodel_element!r} has a content_type that cannot be sent as a header: {e}") from e
 
     def put_submodel_submodel_element_attachment(self, request: Request, url_args: Dict, response_t: Type[APIResponse],
                                                  **_kwargs) -> Response:
